@@ -48,6 +48,29 @@ def gen_program(rng, nfiles):
             lines.insert(0, "1: .word 0\n2$: .word 0")   # local labels are never listed
         files.append((fname, "\n".join(lines) + "\n"))
         markers[fname] = labs
+    # a shared file of definitions, included from one or several files (with '.once' it contributes the first time only,
+    # and its symbols are listed under its own name once)
+    if rng.random() < 0.4:
+        once = rng.random() < 0.7
+        dn = ["COLS.%d" % rng.randrange(9), "Screen", "tab.len", "K%d" % rng.randrange(99)]
+        marker += 1
+        dl = [".once"] if once else []
+        dl += ["%s = %d." % (dn[0], rng.randrange(200)), "%s == %o" % (dn[1], rng.randrange(0o1000, 0o177000)), ".even",
+               "%s: .word %s" % (dn[2], oct(marker)[2:]), "%s = %s + 2" % (dn[3], dn[2])]
+        hosts = list(range(nfiles)) if once else [rng.randrange(nfiles)]
+        if once and rng.random() < 0.5:
+            hosts = rng.sample(hosts, rng.randint(1, len(hosts)))
+        out = []
+        for fi, (fname, text) in enumerate(files):
+            if fi in hosts:
+                ls = text.split("\n")
+                rel = "defs.mac" if "/" not in fname else "../defs.mac"
+                for _ in range(2 if once and rng.random() < 0.3 else 1):
+                    ls.insert(rng.randrange(len(ls)), ".even\n.include \"%s\"\n.even" % rel)
+                text = "\n".join(ls)
+            out.append((fname, text))
+        files = out + [("defs.mac", "\n".join(dl) + "\n")]
+        markers["defs.mac"] = [(dn[2], marker)]
     return files, markers
 
 
@@ -100,10 +123,11 @@ def run(ctx):
                 with open(os.path.join(d, fn), "w", encoding="utf-8") as f:
                     f.write(txt)
             before = impl.snapshot_dir(d)
-            res = impl.run_cli([fn for fn, _ in files] + ["--lst"] + argv_extra, cwd=d)
+            linked = [fn for fn, _ in files if fn != "defs.mac"]
+            res = impl.run_cli(linked + ["--lst"] + argv_extra, cwd=d)
             after = impl.snapshot_dir(d)
             new = sorted(k for k in after if before.get(k) != after[k])
-            inp = {"files": files, "argv": [fn for fn, _ in files] + ["--lst"] + argv_extra}
+            inp = {"files": files, "argv": linked + ["--lst"] + argv_extra}
             ctx.case((json.dumps(files), tuple(argv_extra), src_extra), nontrivial=sum(len(v) for v in markers.values()) >= 1)
             ctx.count("selector:" + (" ".join(argv_extra) or src_extra.strip() or "none"))
             if res.exit != 0:
@@ -121,7 +145,7 @@ def run(ctx):
                 continue
             text = after[lsts[0]].decode("utf-8")
             # the same sources compiled in-process give the reference symbol table and image
-            abs_files = [(os.path.join(os.path.realpath(d) if False else d, fn), txt) for fn, txt in files]
+            abs_files = [(os.path.join(d, fn), txt) for fn, txt in files if fn != "defs.mac"]
             r = impl.assemble(abs_files, want_symbols=True)
             if r.outcome != "ok":
                 continue
